@@ -480,7 +480,7 @@ func ownerRefEdits(r *Report, p *Program, rule string) {
 			if len(cl.Params) != 1 {
 				continue
 			}
-			muts := engine.LocalMutations(cl, cl.Params[0])
+			muts := p.Mutations(cl, cl.Params[0])
 			ok, why := len(muts) > 0, "update closure does not mutate the object"
 			for _, m := range muts {
 				if m.What != "SetOwnerReferences" {
